@@ -283,6 +283,39 @@ def run_case(case):
                 add("discrete_rejected_ok")
             except Exception as e:  # noqa: BLE001
                 res["violations"].append({"key": f"discrete_other_exception|{type(e).__name__}", "what": f"DiscreteGrid({obj!r}) raised {type(e).__name__}"})
+        # order of operations in one process: a valid base category class is used first, then a
+        # dataclass SUBCLASS that adds categories (anything remembered on the class is inherited)
+        from dataclasses import make_dataclass
+
+        for extra_vals, ok_expected in (((2,), True), ((3,), False), ((2, 3), True), ((1,), False), ((2.0,), True)):
+            Base = make_dataclass("Base", [("a", int, 0), ("b", int, 1)])
+            add("discrete_classes")
+            try:
+                DiscreteGrid(Base)
+            except Exception:  # noqa: BLE001 - judged elsewhere
+                pass
+            Sub = make_dataclass("Sub", [(f"x{i}", object, v) for i, v in enumerate(extra_vals)], bases=(Base,))
+            vals = (0, 1) + tuple(extra_vals)
+            should = all(v == i for i, v in enumerate(vals))
+            add("discrete_classes")
+            try:
+                g = DiscreteGrid(Sub)
+                acc = True
+            except GridInitializationError:
+                acc = False
+            except Exception as e:  # noqa: BLE001
+                res["violations"].append({"key": f"discrete_other_exception|{type(e).__name__}", "what": f"DiscreteGrid(subclass with fields {vals}) raised {type(e).__name__}"})
+                continue
+            if acc != should:
+                res["violations"].append({"key": f"discrete_{'accepted' if acc else 'rejected'}_wrongly|mode=subclass_after_base", "what": f"DiscreteGrid(subclass with field values {vals}) after DiscreteGrid(base (0, 1)): accepted={acc}, statement says {should}"})
+            elif acc:
+                arr = np.asarray(g.to_jax())
+                if arr.shape != (len(vals),) or not np.array_equal(arr.astype(float), np.arange(len(vals), dtype=float)):
+                    res["violations"].append({"key": "discrete_codes_wrong|mode=subclass_after_base", "what": f"DiscreteGrid(subclass with field values {vals}) after its base class: to_jax()={arr.tolist()}"})
+                else:
+                    add("discrete_accepted_ok")
+            else:
+                add("discrete_rejected_ok")
         samples = [n for n, _ in _disc_pool()[:6]]
         res["sig"] = "disc_exhaustive"
         res["exhaustive_chunk"] = True
